@@ -358,3 +358,96 @@ def call_chunk(cases, extra):
         if not same:
             out.append({"fn": fn, "arg": cls, "style": style, "direct": [direct[0], repr(direct[1])[:80]], "sandbox": [sand[0], repr(sand[1])[:120]]})
     return out
+
+
+# ------------------------------------------------------------------ sessions (specs/EquivSession.tla)
+SESSION_STUDENT = '''
+total = 0
+log = []
+scratch = 1
+def deposit(amount):
+    global total
+    total = total + amount
+    return total
+def note(x):
+    log.append(x)
+    return len(log)
+def forget():
+    global scratch
+    del scratch
+    return 1
+def define():
+    global fresh
+    fresh = 7
+    return fresh
+'''
+SESSION_ARGS = {"deposit": (5,), "note": ("n",), "forget": (), "define": ()}
+
+
+def session_view(get):
+    """The spec's abstract namespace, read through `get(name)` (raises NameError / KeyError when absent)."""
+    def present(name):
+        try:
+            get(name)
+            return True
+        except Exception:
+            return False
+    return {"total": get("total"), "logn": len(get("log")), "scratch": present("scratch"), "fresh": present("fresh")}
+
+
+def session_chunk(cases, extra):
+    """Replay the exported sessions: the same calls on the sandbox (run once, then call()) and directly in a plain
+    namespace; after every step compare the returned value and evaluate() of every global."""
+    from engine.core import setup_repo_path
+    setup_repo_path()
+    from pedal.core.commands import clear_report, contextualize_report
+    from pedal.sandbox import commands as S
+    from bind.proxy import unwrap
+    out = []
+    for idx, rec in cases:
+        threaded = bool(rec["threaded"])
+        clear_report()
+        contextualize_report(SESSION_STUDENT)
+        sb = S.get_sandbox()
+        sb.allowed_time = 5
+        S.run(threaded=threaded)
+        plain = {}
+        exec(SESSION_STUDENT, plain)
+        for pos, h in enumerate(rec["hist"], 1):
+            op = h["op"]
+            try:
+                want = ("ok", plain[op](*SESSION_ARGS[op]))
+            except Exception as e:
+                want = ("err", type(e).__name__)
+            try:
+                res = S.call(op, *SESSION_ARGS[op], threaded=threaded)
+                got = ("err", type(unwrap(sb.exception)).__name__) if sb.exception is not None else ("ok", unwrap(res))
+            except Exception as e:
+                got = ("raised", "%s: %s" % (type(e).__name__, e))
+            if (want[0] == "ok") != (h["ret"] != -1):
+                out.append({"case": rec, "kind": "environment", "step": pos, "detail": "plain interpreter gives %s, spec says %s" % (want, h["ret"])})
+                break
+            view_plain = session_view(lambda n: plain[n])
+
+            def ev(name):
+                r = S.evaluate(name, threaded=threaded)
+                if sb.exception is not None:
+                    raise NameError(name)
+                return unwrap(r)
+            try:
+                view_sand = session_view(ev)
+            except Exception as e:
+                view_sand = {"error": "%s: %s" % (type(e).__name__, e)}
+            view_data = session_view(lambda n: sb.data[n])
+            bad = []
+            if want != got:
+                bad.append("return")
+            if view_sand != view_plain:
+                bad.append("evaluate")
+            if view_data != view_plain:
+                bad.append("data")
+            if bad:
+                out.append({"case": rec, "kind": "session", "step": pos, "op": op, "fields": bad, "threaded": threaded,
+                            "plain": [list(want), view_plain], "sandbox": [[got[0], repr(got[1])[:60]], view_sand, view_data]})
+                break
+    return out
